@@ -621,6 +621,42 @@ func checkJoin(p *Program, r *Report, s goSite, key string) {
 			}
 		}
 	}
+	// R05.10: the signal is the goroutine's last act. Anything it does after the send — a write-back of states, a
+	// store, a call — can run after the spawner has counted it as finished and returned
+	r.Rule("R05.10", "the completion signal is sent last: after the send on the done channel a goroutine executes no call, store or further send before it returns — otherwise the spawner can return (and its caller read or reuse the shared arrays) while the goroutine is still writing")
+	for _, sd := range sends {
+		var late ssa.Instruction
+		seenB := map[*ssa.BasicBlock]bool{}
+		var scan func(b *ssa.BasicBlock, from int)
+		scan = func(b *ssa.BasicBlock, from int) {
+			for i := from; i < len(b.Instrs) && late == nil; i++ {
+				switch x := b.Instrs[i].(type) {
+				case *ssa.Call, *ssa.Go, *ssa.Defer, *ssa.Send:
+					late = x
+				case *ssa.Store:
+					late = x
+				}
+			}
+			for _, sc := range b.Succs {
+				if !seenB[sc] && late == nil {
+					seenB[sc] = true
+					scan(sc, 0)
+				}
+			}
+		}
+		idx := -1
+		for i, ins := range sd.Block().Instrs {
+			if ins == ssa.Instruction(sd) {
+				idx = i
+			}
+		}
+		scan(sd.Block(), idx+1)
+		if late != nil {
+			r.Fail("R05.10", key+":signal-not-last", p.Pos(late.Pos()), "the goroutine goes on working after it has signalled completion: the spawner may already have returned, so what is written here (the cell's final states) can land after the caller has read or reused the array")
+		} else {
+			r.OK("R05.10", fmt.Sprintf("%s: nothing follows the completion signal", key))
+		}
+	}
 	// spawner side
 	var parentCell ssa.Value
 	if fv, ok := cell.(*ssa.FreeVar); ok && s.mc != nil {
@@ -728,7 +764,7 @@ func checkJoin(p *Program, r *Report, s goSite, key string) {
 		}
 	}
 	// trip counts
-	rb, rwhy := loopBound(recvLoop)
+	rb, rwhy := loopCount(recvLoop)
 	if rb == nil && rwhy == "loop variable does not start at 0" {
 		r.Fail("R05.2", key+":count-mismatch", p.Pos(recvIns.Pos()), "join loop does not start counting at 0: fewer receives than goroutines started")
 		return
@@ -1074,4 +1110,77 @@ func waitGroupJoin(s goSite) (why string, isWG bool) {
 		return "a return of the spawner is reachable from the go statement without passing Wait on the same WaitGroup: Run would return while cells are still being computed", true
 	}
 	return "", true
+}
+
+// loopCount: the number of iterations of a counting loop whose variable is used for nothing but counting:
+// `for k := 0; k < B; k++` or the countdown `for k := B; k > 0; k--` → B.
+func loopCount(l *Loop) (ssa.Value, string) {
+	if b, why := loopBound(l); why == "" {
+		return b, ""
+	} else if cd := countdownFrom(l); cd != nil {
+		return cd, ""
+	} else {
+		return nil, why
+	}
+}
+
+func countdownFrom(l *Loop) ssa.Value {
+	h := l.Header
+	iff, ok := h.Instrs[len(h.Instrs)-1].(*ssa.If)
+	if !ok || !l.Blocks[h.Succs[0]] {
+		return nil
+	}
+	bo, ok := iff.Cond.(*ssa.BinOp)
+	if !ok {
+		return nil
+	}
+	var phi *ssa.Phi
+	switch {
+	case bo.Op == token.GTR: // k > 0
+		if c, isC := constInt(bo.Y); isC && c == 0 {
+			phi, _ = bo.X.(*ssa.Phi)
+		}
+	case bo.Op == token.GEQ: // k >= 1
+		if c, isC := constInt(bo.Y); isC && c == 1 {
+			phi, _ = bo.X.(*ssa.Phi)
+		}
+	case bo.Op == token.LSS: // 0 < k
+		if c, isC := constInt(bo.X); isC && c == 0 {
+			phi, _ = bo.Y.(*ssa.Phi)
+		}
+	}
+	if phi == nil || phi.Block() != h {
+		return nil
+	}
+	var start ssa.Value
+	for i, e := range phi.Edges {
+		if l.Blocks[h.Preds[i]] {
+			dec, ok := e.(*ssa.BinOp)
+			if !ok || dec.X != ssa.Value(phi) {
+				return nil
+			}
+			c, isC := constInt(dec.Y)
+			if !isC || !(dec.Op == token.SUB && c == 1 || dec.Op == token.ADD && c == -1) {
+				return nil
+			}
+		} else {
+			if start != nil {
+				return nil
+			}
+			start = e
+		}
+	}
+	// the counter is used for nothing else
+	for _, ref := range refs(phi) {
+		switch x := ref.(type) {
+		case *ssa.BinOp:
+			if x != bo && !(x.X == ssa.Value(phi) && (x.Op == token.SUB || x.Op == token.ADD)) {
+				return nil
+			}
+		case *ssa.DebugRef:
+		default:
+			return nil
+		}
+	}
+	return start
 }
